@@ -24,7 +24,7 @@ SPEC = {
                  "a quarter with a duplicated node (zero-length edge), a quarter with decimetre geometry (fixes a few decimetres from a node, fixes that hardly move); "
                  "a quarter of the integer-labelled cases on SqliteMaps (both sides; node and edge states), the others on in-memory maps; "
                  "emitting-only, no cut-offs, both families; non-trivial = non-empty match on a map with >= 3 nodes", "")],
-    'extra_builders': {'setter': lambda prog, tier: [M.vc_use_latlon_setter(prog, v) for v in (True, False, None)] + [M.vc_basemap_init(prog, v) for v in (True, False)],
+    'extra_builders': {'setter': lambda prog, tier: [M.vc_use_latlon_setter(prog, v) for v in (True, False, None, 1, 0)] + [M.vc_basemap_init(prog, v) for v in (True, False)],
                        'purity': _purity},
 }
 
